@@ -1,36 +1,29 @@
 import PttVerif.Proofs.C02
 import PttVerif.Proofs.C02Pw
+import PttVerif.Proofs.C02Final
 /-
 C02 — Password hashes are crypt(3) DES and verify only the right password.
 Property theorems only (helper lemmas live in Proofs/C02.lean; the model in Model/C02.lean; the hand-written
 FIPS-46 / crypt(3) specification in Model/C02Spec.lean).
 
 What is proved, against the clauses of the property
- (a) "the hash equals traditional DES crypt(3)":
-       * table exactness — every entry of SPtrans, skb, con_salt, cov_2char, shifts2 (regenerated from
-         crypt/const.go on every run) equals its definition from the FIPS-46 tables (S1–S8, P, PC-2, shift
-         schedule) resp. the crypt(3) salt/alphabet definition:  `sptrans_eq_P_S`, `skb_eq_pc2`, `con_salt_eq`,
-         `cov_2char_eq`, `shifts2_eq`;
-       * output format: `fcrypt_format` (13 characters + NUL, the first two being the salt, the rest from the
-         alphabet), totality on the salt domain: `fcrypt_total_on_alphabet`;
-       * NOT proved: the full functional equality
-
-           theorem fcrypt_eq_crypt3 (p s : List Nat) (c0 c1) (h0 : s[0]? = some c0) (h1 : s[1]? = some c1)
-               (a0 : c0 ∈ Spec.alphabet64) (a1 : c1 ∈ Spec.alphabet64) (hb : ∀ b ∈ p, b < 256) :
-               Fcrypt p s = .ok (Spec.crypt3 p c0 c1)
-
-         (`Spec.crypt3` is the executable textbook definition).  It is what `fcrypt_eq_crypt3_partial` below
-         stands in for; the equality itself is judged on every run by the oracle (libc crypt(3)) and by running
-         `Spec.crypt3` next to the implementation on every generated alphabet-salt pair (driver op `spec`).
-         Of its proof (every step except the S-box lookup is GF(2)-linear; Proofs/C02Lin.lean is a reflective
-         checker for such word circuits: two checked circuits that agree on the unit vectors agree everywhere) the
-         following parts ARE closed, each for ALL inputs: the whole key schedule for every password
-         (`key_schedule_eq_textbook`: bit-swap PC-1, the 16 rotations and the `skb` lookups = PC-1, left shifts, PC-2),
-         that the schedule words deliver block B_b of the round key to S-box b (`round_key_reaches_sbox`), that the
-         rotated data word delivers block b of E(R) (`expansion_eq_E`), the final permutation (`final_perm_eq_FP`),
-         IP∘FP = id (`ip_fp_cancel`).  Missing: the salt perturbation of E inside `dEncrypt` against `Spec.saltE`, the
-         recombination `rho(P(S-boxes))` = or of the eight `SPtrans` entries (table exactness gives each entry), the
-         induction over 25×16 rounds and the 6-bit output packing.
+ (a) "the hash equals traditional DES crypt(3)": PROVED IN FULL —
+       `fcrypt_eq_crypt3`: for every password (any bytes, any length) and every salt whose first two characters are
+       7-bit (in particular every two-character salt of the crypt alphabet, `fcrypt_eq_crypt3_alphabet`),
+       `Fcrypt p s = .ok (Spec.crypt3 p c0 c1)`, where `Spec.crypt3` (Model/C02Spec.lean) is the hand-written
+       textbook definition: FIPS-46 IP/FP/E/P/PC-1/PC-2/S1–S8/shift schedule, the crypt(3) salt perturbation of E,
+       25 encryptions of the zero block, base-64 packing.  (`Spec.crypt3` itself is tied to libc crypt(3) only by
+       the oracle: it is run next to the implementation and libc on every generated pair.)
+       How: every step of DES except the S-box lookup is GF(2)-linear; Proofs/C02Lin.lean is a reflective checker
+       for such word circuits (two checked circuits that agree on the unit vectors agree on every input), so the
+       bit-swap networks (PC-1, FP), the rotations, the `skb` key-schedule lookups, the E-expansion-by-rotation and
+       the salt swap network (bilinear in data and salt: all 4096 salts) reduce to `decide +kernel` on closed
+       terms; the S-boxes enter through table exactness (`sptrans_eq_P_S`) and the or of the eight entries is an
+       xor because their supports are disjoint; then inductions over 16 rounds and 25 passes, and the 66-bit
+       output reader against the arithmetic base-64 packing.
+       Also kept as separate statements: table exactness (`sptrans_eq_P_S`, `skb_eq_pc2`, `con_salt_eq`,
+       `cov_2char_eq`, `shifts2_eq`), the format (`fcrypt_format`), totality (`fcrypt_total_on_alphabet`), the key
+       schedule (`key_schedule_eq_textbook`), one half-round (`half_round_eq_textbook`), `final_perm_eq_FP`.
  (b) a fresh hash verifies: `check_gen`, for every value of the random source.
  (c) only the low seven bits of the first eight bytes up to a NUL matter: `fcrypt_effective_key`,
      `fcrypt_effective_key8`, `checkPasswd_same_key`.
@@ -136,31 +129,29 @@ theorem fcrypt_total_on_alphabet (p s : List Nat) (c0 c1 : Nat) (h0 : s[0]? = so
     exfalso
     exact (fcrypt_panics_iff p s).mp ⟨e, hr⟩ ⟨c0, c1, h0, h1, key c0 a0, key c1 a1⟩
 
-/-- what is proved of clause (a) — see the header for the full statement `fcrypt_eq_crypt3` that is not: on an
-alphabet salt the result exists, has the crypt(3) format with exactly the given salt characters, and every table
-the computation reads is entry-for-entry the FIPS-46 / crypt(3) one. -/
-theorem fcrypt_eq_crypt3_partial (p s : List Nat) (c0 c1 : Nat) (h0 : s[0]? = some c0) (h1 : s[1]? = some c1)
-    (a0 : c0 ∈ Spec.alphabet64) (a1 : c1 ∈ Spec.alphabet64) :
-    (∃ h, Fcrypt p s = .ok h ∧ h.length = 14 ∧ h[0]? = some c0 ∧ h[1]? = some c1 ∧ h[13]? = some 0 ∧
-        (∀ i, 2 ≤ i → i < 13 → ∃ c, h[i]? = some c ∧ c ∈ Spec.alphabet64) ∧
-        (Spec.crypt3 p c0 c1).length = 14 ∧ (Spec.crypt3 p c0 c1)[0]? = some c0 ∧ (Spec.crypt3 p c0 c1)[1]? = some c1) ∧
-      (∀ b x, b < 8 → x < 64 → tbl SPtrans b x = Spec.spEntry b x ∧ tbl skb b x = Spec.skbEntry b x) ∧
-      (∀ c, c < 128 → con_salt[c]? = some (Spec.saltValue c)) ∧ cov_2char = Spec.alphabet64 ∧
-      shifts2 = Spec.shifts.map (· - 1) := by
-  obtain ⟨h, hh⟩ := fcrypt_total_on_alphabet p s c0 c1 h0 h1 a0 a1
-  obtain ⟨hl, h13, ⟨s0, s1, e0, e1, f0, f1⟩, hal⟩ := fcrypt_format p s h hh
-  have nz : ∀ c ∈ Spec.alphabet64, saltChar c = c := by decide +kernel
-  rw [h0] at e0; cases e0; rw [h1] at e1; cases e1
-  rw [nz _ a0] at f0; rw [nz _ a1] at f1
-  exact ⟨⟨h, hh, hl, f0, f1, h13, hal, by simp [Spec.crypt3, Spec.encode64], by simp [Spec.crypt3], by simp [Spec.crypt3]⟩,
-    fun b x hb hx => ⟨sptrans_eq_P_S b x hb hx, skb_eq_pc2 b x hb hx⟩, con_salt_eq, cov_2char_eq, shifts2_eq⟩
+/-- clause (a), in full: for every password and every salt whose two characters index `con_salt` (7-bit; a NUL reads
+as 'A'), the result of `Fcrypt` is the textbook traditional DES crypt(3) of the password under those two salt
+characters. -/
+theorem fcrypt_eq_crypt3 (p s : List Nat) (s0 s1 : Nat) (h0 : s[0]? = some s0) (h1 : s[1]? = some s1)
+    (l0 : saltChar s0 < 128) (l1 : saltChar s1 < 128) :
+    Fcrypt p s = .ok (Spec.crypt3 p (saltChar s0) (saltChar s1)) :=
+  (cFcrypt_ok_iff p s _).mpr ⟨s0, s1, _, _, h0, h1, con_salt_eq _ l0, con_salt_eq _ l1,
+    (Lin.hashOf_eq_crypt3 p (saltChar s0) (saltChar s1)).symm⟩
+
+/-- … in particular for every salt of the crypt alphabet (any length ≥ 2: only the first two characters count). -/
+theorem fcrypt_eq_crypt3_alphabet (p s : List Nat) (c0 c1 : Nat) (h0 : s[0]? = some c0) (h1 : s[1]? = some c1)
+    (a0 : c0 ∈ Spec.alphabet64) (a1 : c1 ∈ Spec.alphabet64) : Fcrypt p s = .ok (Spec.crypt3 p c0 c1) := by
+  have key : ∀ c ∈ Spec.alphabet64, saltChar c = c ∧ saltChar c < 128 := by decide +kernel
+  have := fcrypt_eq_crypt3 p s c0 c1 h0 h1 (key c0 a0).2 (key c1 a1).2
+  rw [(key c0 a0).1, (key c1 a1).1] at this
+  exact this
 
 example : ∃ p s c0 c1, s[0]? = some c0 ∧ s[1]? = some c1 ∧ c0 ∈ Spec.alphabet64 ∧ c1 ∈ Spec.alphabet64 ∧
     Fcrypt p s = .ok (Spec.crypt3 p c0 c1) :=
   ⟨[48, 49, 50, 51, 52, 53, 54, 55, 56, 57, 48, 49], [65, 65], 65, 65, rfl, rfl, by decide, by decide, by decide +kernel⟩
 
 
-/-! #### (a) stage 4: the parts of `fcrypt_eq_crypt3` that are proved, each for all inputs -/
+/-! #### (a) the main stages of the proof of `fcrypt_eq_crypt3`, each for all inputs -/
 
 /-- for every password, the 32 schedule words `desSetKey` computes from the key block `cFcrypt` builds are the
 sixteen textbook round keys (PC-1, left rotations by the FIPS shift schedule, PC-2) of the crypt(3) key of that
@@ -190,6 +181,14 @@ the pre-output halves held in the implementation's representation `rho`. -/
 theorem final_perm_eq_FP (A B : Nat) (hA : A < 2 ^ 32) (hB : B < 2 ^ 32) :
     Lin.outVal (finalPerm (Lin.rho A, Lin.rho B)) = Spec.permF Spec.FP 64 (A * 4294967296 + B) :=
   Lin.finalPerm_eq_FP A B hA hB
+
+/-- one call of `dEncrypt` with the two schedule words of round key `K` is one textbook half-round
+`L ⊕ f(R, K)` (salted E, S-boxes, P) on halves held as `rho`, for every half, round key and salt `σ = v0 + 64·v1`. -/
+theorem half_round_eq_textbook (L R K σ S : Nat) (s : List Nat) (hR : R < 2 ^ 32) (hK : K < 2 ^ 48) (hσ : σ < 2 ^ 12)
+    (h0 : s.getD S 0 = Lin.kw0 K) (h1 : s.getD (S + 1) 0 = Lin.kw1 K) :
+    dEncrypt L (Lin.rho R) S (σ &&& 63) (shl (σ >>> 6) 4) s =
+      L ^^^ Lin.rho (Spec.f (Spec.saltMaskOf (σ &&& 63) (σ >>> 6)) R K) :=
+  Lin.dEncrypt_spec L R K σ S s hR hK hσ h0 h1
 
 /-- IP and FP cancel, so chaining 25 encryptions without re-permuting (as `body` does) is sound. -/
 theorem ip_fp_cancel (x : Nat) (hx : x < 2 ^ 64) : Spec.permF Spec.IP 64 (Spec.permF Spec.FP 64 x) = x :=
